@@ -857,6 +857,7 @@ def search(ctx, sc, only=None):
         if not only or only[1] in ('__getitem__', 'add', 'observe', 'parent', 'add_observer', 'add_sight_line', 'add_foil_detector', '__init__'):
             guarded(ctx, c['name'] + ' type filter', lambda: search_type_filter(ctx, im, cls))
             guarded(ctx, c['name'] + ' membership', lambda: search_membership(ctx, im, cls))
+            guarded(ctx, c['name'] + ' retrieval histories', lambda: search_retrieval_histories(ctx, im, cls))
 
 
 def _setup(c, sc, U, rng):
@@ -1194,6 +1195,146 @@ def search_alias_values(ctx, im, cls, attr):
                     ctx.fail(sig + 'aliases-caller-list', '%s.targets = flat list V; V %s afterwards changed the pixels\' targets' % (im.name, how),
                              dict(cls=im.name, attr=attr, n=n, form='flat', mutation=how, clause='caller-mutation'))
                     return
+
+
+NAME_POOL = ('alpha', 'beta', 'gamma', 'delta', 'eps')
+
+
+def search_retrieval_histories(ctx, im, cls):
+    """retrieval after member-level changes: histories that interleave member-level mutations (member.name = …, any
+    broadcast attribute set on the member object itself) and group-level ones (names = …, add, member-list assignment,
+    broadcast assignment) with retrieval.  After *every* step, with no further group operation in between:
+      * group[name] is exactly the member whose current name is `name` when that member is unique; it raises for a name
+        no member currently has; for a duplicated name the Observer0DGroup family raises (BolometerCamera documents
+        first-match: the result must at least carry that name now);
+      * group[i], group[:] follow the members in order; len is right;
+      * every group-level read (`names`, all broadcast attributes) equals the members' current values."""
+    rng = ctx.rng
+    U = im.U
+    sig = 'C15:%s.' % im.name
+    reads = [a for a in im.bcast if im.desc[a]['setter'] is not None or True]
+    for hist in range(ctx.n(6, 40)):
+        n = rng.randint(2, 4)
+        g = cls()
+        ms = [make_member(im.member_kind, str(i)) for i in range(n)]
+        for o in ms:
+            im.add(g, o)
+        for o, nm in zip(ms, rng.sample(NAME_POOL, n)):
+            o.name = nm
+        trail = []
+        renamed_since_group_op = False
+
+        def check(step):
+            """returns False after reporting"""
+            rep = dict(cls=im.name, attr='__getitem__', history=list(trail[-10:]), n=len(ms))
+            # index / slice / len
+            try:
+                okk = len(g) == len(ms) and all(g[i] is ms[i] for i in range(len(ms))) and _same_objs(list(g[:]), ms)
+            except Exception as e:  # noqa
+                okk = False
+            if not okk:
+                ctx.fail(sig + '__getitem__:index-after-member-change', '%s: index / slice retrieval no longer follows the members after %s' % (im.name, step), rep)
+                return False
+            # names
+            for key in NAME_POOL + ('nobody',):
+                cur = [o for o in ms if o.name == key]
+                try:
+                    got = g[key]
+                    st = 'ok'
+                except Exception as e:  # noqa
+                    got, st = None, ename(exc_kind(e))
+                why = None
+                if len(cur) == 1 and got is not cur[0]:
+                    why = 'the member currently named %r is not returned (%s)' % (key, st if st != 'ok' else 'another member came back')
+                elif len(cur) == 0 and st == 'ok':
+                    why = 'no member is currently named %r, yet a member (current name %r) is returned' % (key, got.name)
+                elif len(cur) > 1:
+                    if im.c['family'] == 'observer0D' and st == 'ok':
+                        why = '%d members are currently named %r, yet one of them is returned instead of an error' % (len(cur), key)
+                    elif st == 'ok' and not any(got is o for o in cur):
+                        why = 'a member not currently named %r is returned' % key
+                if why:
+                    stale = renamed_since_group_op
+                    ctx.fail(sig + ('__getitem__:name-lookup-stale-after-member-rename' if stale else '__getitem__:name-lookup'),
+                             '%s[%r] after %s: %s; current names %s' % (im.name, key, step, why, [o.name for o in ms]),
+                             dict(rep, key=key, step=step, current_names=[o.name for o in ms]))
+                    return False
+            # reads
+            for a in reads:
+                ma = im.desc[a]['getter'].get('attr') if im.desc[a]['getter']['kind'] == 'each' else None
+                if ma is None or ma != expected_member(a):
+                    continue            # mis-wired getters are the business of search_attr
+                try:
+                    want = [U.canon(ma, getattr(o, ma)) for o in ms]
+                except AttributeError:
+                    continue
+                try:
+                    got = [U.canon(ma, x) for x in getattr(g, a)]
+                except Exception as e:  # noqa
+                    got = ename(exc_kind(e))
+                if got != want:
+                    ctx.fail(sig + a + ':read-stale-after-member-change', '%s.%s after %s returns %s, the members hold %s' % (im.name, a, step, got, want),
+                             dict(cls=im.name, attr=a, history=list(trail[-10:]), step=step))
+                    return False
+            return True
+
+        if not check('construction'):
+            return
+        for _ in range(ctx.n(14, 30)):
+            r = rng.random()
+            ctx.case(key=('S', im.name, 'retrieval-history', hist, len(trail)))
+            if r < 0.4:
+                o = rng.choice(ms)
+                nm = rng.choice(NAME_POOL)
+                step = 'member-level rename: members[%d].name = %r (was %r)' % (ms.index(o), nm, o.name)
+                o.name = nm
+                renamed_since_group_op = True
+            elif r < 0.6 and reads:
+                a = rng.choice([x for x in im.mattrs if x not in ('name', 'pipelines', 'targets', 'render_engine')] or ['name'])
+                o = rng.choice(ms)
+                v = im.member_value(a) if a != 'name' else rng.choice(NAME_POOL)
+                step = 'member-level change: members[%d].%s = %r' % (ms.index(o), a, v)
+                try:
+                    setattr(o, a, v)
+                except Exception:  # noqa
+                    continue
+                if a == 'name':
+                    renamed_since_group_op = True
+            elif r < 0.7 and 'names' in im.desc and im.desc['names']['getter'].get('attr') == 'name':
+                nms = [rng.choice(NAME_POOL) for _ in ms]
+                step = 'group-level names = %r' % nms
+                if outcome(lambda: setattr(g, 'names', nms)) != 'ok':
+                    continue
+                renamed_since_group_op = False
+            elif r < 0.78 and len(ms) < 5:
+                o = make_member(im.member_kind, 'x')
+                o.name = rng.choice(NAME_POOL)
+                step = 'group-level add of a member named %r' % o.name
+                if outcome(lambda: im.add(g, o)) != 'ok':
+                    continue
+                ms.append(o)
+                renamed_since_group_op = False
+            elif r < 0.86 and im.mlist:
+                new = list(ms)
+                rng.shuffle(new)
+                new = new[:rng.randint(2, len(new))]
+                ml = rng.choice(im.mlist)
+                step = 'group-level %s = permutation/subset of %d members' % (ml, len(new))
+                if outcome(lambda: setattr(g, ml, list(new))) != 'ok':
+                    continue
+                ms[:] = new
+                renamed_since_group_op = False
+            elif im.bcast:
+                a = rng.choice([b for b in im.bcast if b not in ('names', 'pipelines', 'targets')] or im.bcast)
+                v = im.member_value(expected_member(a))
+                step = 'group-level %s = %r' % (a, v)
+                if outcome(lambda: setattr(g, a, v)) != 'ok':
+                    continue
+            else:
+                continue
+            trail.append(step)
+            if not check(step):
+                return
 
 
 def search_membership(ctx, im, cls):
